@@ -2,6 +2,7 @@
 
 from __future__ import annotations
 
+import os
 import random
 
 import numpy as np
@@ -67,7 +68,8 @@ def gen_specs(rng: random.Random, tier: str, n: int) -> list[dict]:
                 "cfg": cfg,
                 "history": hist,
                 "parallel": parallel,
-                "via": "generate" if narrow else rng.choice(["generate", "generate", "from_config"]),  # from_config needs JSON-native kwargs (file name)
+                "via": "generate" if narrow else rng.choice(["generate", "generate", "from_config"] + (["from_config_cached"] if i % 8 == 5 else [])),  # from_config needs JSON-native kwargs (file name)
+                "first_n": rng.randint(1, 6),
                 "pool_kwargs": pk,
                 "world": {
                     "start_method": rng.choice(["fork", "fork", "spawn"]),
@@ -136,6 +138,18 @@ def _call(spec_cfg, parallel, pool_kwargs, via):
     from maze_dataset import MazeDataset
 
     cfg = _ds.make_cfg(spec_cfg)
+    if via.startswith("from_config_cached:"):
+        # the config-driven entry point with its on-disk cache in a scratch directory, called twice on ONE configuration object
+        # whose maze count is re-assigned in between: the second dataset must have the count the object then asks for
+        _, first_n, scratch = via.split(":", 2)
+        n = cfg.n_mazes
+        cfg.n_mazes = int(first_n)
+        try:
+            MazeDataset.from_config(cfg, local_base_path=scratch, gen_parallel=parallel, pool_kwargs=dict(pool_kwargs))
+        except Exception:  # noqa: BLE001 - only the second call is judged
+            pass
+        cfg.n_mazes = n
+        return MazeDataset.from_config(cfg, local_base_path=scratch, gen_parallel=parallel, pool_kwargs=dict(pool_kwargs))
     if via == "from_config":
         return MazeDataset.from_config(cfg, load_local=False, save_local=False, gen_parallel=parallel, pool_kwargs=dict(pool_kwargs))
     return MazeDataset.generate(cfg, gen_parallel=parallel, pool_kwargs=dict(pool_kwargs))
@@ -206,7 +220,11 @@ def run(spec: dict, ctx) -> dict:
         used_before = world.max_workers_used
         world.max_workers_used = 0
         try:
-            ds = _call(spec["cfg"], spec["parallel"], spec["pool_kwargs"], spec["via"])
+            via = spec["via"]
+            if via == "from_config_cached":
+                via = "from_config_cached:%d:%s" % (spec.get("first_n", 2), os.path.join(ctx.scratch, "cache"))
+                stats["probe_cached_entry_point_count_reassigned"] = 1
+            ds = _call(spec["cfg"], spec["parallel"], spec["pool_kwargs"], via)
             exc = None
         except Exception as e:  # noqa: BLE001
             ds, exc = None, e
